@@ -169,7 +169,8 @@ class Ctx:
             "seed": int(os.environ.get("VERIF_SEED", "0") or 0),
             "level": self.level,
             "coverage": {
-                "explanation": self.explanation,
+                "explanation": self.explanation + " || Rules applied in this run: " + "; ".join(
+                    "%s = %s" % (r, d) for r, d in sorted(self.rules.items())),
                 "obligations": total,
                 "discharged": good,
                 "evaluations": max(total, 1),
